@@ -970,7 +970,8 @@ func (d *DFA) findWithPrefilterAt(cache *DFACache, haystack []byte, startAt int)
 		if d.hasWordBoundary {
 			st := cache.getState(sid)
 			if st != nil && d.checkWordBoundaryMatch(st, haystack[pos]) {
-				return pos
+				// recorded, not returned: see searchAt
+				lastMatch = pos
 			}
 		}
 
